@@ -97,6 +97,10 @@ func runC09(r *ev.Run) {
 	if r.Thorough() {
 		depth = 4
 	}
+	var poorReplay func(h [][]string) string
+	_ = poorReplay
+	var pendingPoor [][]string
+	poorMode := false
 	runHist := func(h [][]string) string {
 		b, err := w.newBundle(specs)
 		if err != nil {
@@ -165,7 +169,16 @@ func runC09(r *ev.Run) {
 		var a c09Artefact
 		_ = json.Unmarshal(bb, &a)
 		what := ""
-		if a.Mode == "history" {
+		if a.Mode == "poor" {
+			for _, s := range a.History {
+				if s == "" {
+					pendingPoor = append(pendingPoor, nil)
+				} else {
+					pendingPoor = append(pendingPoor, strings.Split(s, "+"))
+				}
+			}
+			poorMode = true
+		} else if a.Mode == "history" {
 			var h [][]string
 			for _, s := range a.History {
 				if s == "" {
@@ -184,18 +197,23 @@ func runC09(r *ev.Run) {
 				}
 			}
 		}
-		if what != "" {
-			fmt.Printf("VIOLATION property=C09 replay=%s\n  what: %s\n", r.Replay, what)
-			os.Exit(1)
+		if !poorMode {
+			if what != "" {
+				fmt.Printf("VIOLATION property=C09 replay=%s\n  what: %s\n", r.Replay, what)
+				os.Exit(1)
+			}
+			fmt.Println("replay: property held")
+			os.Exit(0)
 		}
-		fmt.Println("replay: property held")
-		os.Exit(0)
 	}
 	// Part A: all histories of `depth` blocks.
 	n := len(alpha)
 	total := 1
 	for i := 0; i < depth; i++ {
 		total *= n
+	}
+	if poorMode {
+		total = 0 // replay of a poor-signer history: skip part A
 	}
 	ev.ParallelRange(total, r.Seed, func(i int) {
 		if r.Expired() {
@@ -224,6 +242,152 @@ func runC09(r *ev.Run) {
 			r.Sample(map[string]any{"history": hs}, 5)
 		}
 	})
+	// Part A2: a signer that cannot always pay: account a2 is empty at genesis.  Letters: a2's
+	// pre-signed transfers (nonces 0, 1; fee 1; amount 5 to a0), a1's pre-signed funding transfers to
+	// a2 (nonces 0, 1; amounts 5 and 7; no fee), pairs in one block.  Reference: a transaction passes
+	// authentication iff its nonce equals the signer's nonce and the signer can pay the fee; only then
+	// the nonce advances and the fee is charged (whether or not the transfer itself succeeds); a
+	// transaction rejected at authentication changes nothing and its bytes stay valid for later.
+	{
+		k := w.keys
+		a0, a1, a2 := chain.Addr(k.Accounts[0]), chain.Addr(k.Accounts[1]), chain.Addr(k.Accounts[2])
+		_ = a1
+		type ptx struct {
+			name   string
+			raw    []byte
+			signer int // 1 or 2
+			nonce  uint64
+			fee    int64
+			amt    int64
+		}
+		pool := map[string]ptx{}
+		var names []string
+		add := func(t ptx) { pool[t.name] = t; names = append(names, t.name) }
+		for n := uint64(0); n < 2; n++ {
+			add(ptx{fmt.Sprintf("a2.n%d(fee1,pay5)", n), chain.SignTx(k.Accounts[2], n, chain.Fee(1, 1000), staking.MethodTransfer, staking.Transfer{To: a0, Amount: qq(5)}), 2, n, 1, 5})
+		}
+		add(ptx{"fund.n0(a1->a2,5)", chain.SignTx(k.Accounts[1], 0, chain.Fee(0, 1000), staking.MethodTransfer, staking.Transfer{To: a2, Amount: qq(5)}), 1, 0, 0, 5})
+		add(ptx{"fund.n1(a1->a2,7)", chain.SignTx(k.Accounts[1], 1, chain.Fee(0, 1000), staking.MethodTransfer, staking.Transfer{To: a2, Amount: qq(7)}), 1, 1, 0, 7})
+		alpha2 := [][]string{{}}
+		for _, nm := range names {
+			alpha2 = append(alpha2, []string{nm})
+		}
+		alpha2 = append(alpha2, []string{"fund.n0(a1->a2,5)", "a2.n0(fee1,pay5)"}, []string{"a2.n0(fee1,pay5)", "fund.n0(a1->a2,5)"}, []string{"a2.n0(fee1,pay5)", "a2.n1(fee1,pay5)"}, []string{"fund.n0(a1->a2,5)", "fund.n1(a1->a2,7)"})
+		view := func(n *chain.Node) (nonce [3]uint64, bal [3]int64) {
+			t := n.Tree()
+			defer t.Close()
+			st := stakingState.NewImmutableState(t)
+			for i := 0; i < 3; i++ {
+				if acct, err := st.Account(chain.Ctx, chain.Addr(k.Accounts[i])); err == nil {
+					nonce[i] = acct.General.Nonce
+					bal[i] = acct.General.Balance.ToBigInt().Int64()
+				}
+			}
+			return
+		}
+		runPoor := func(h [][]string) string {
+			b, err := w.newBundle(specs[:1])
+			if err != nil {
+				return "harness: " + err.Error()
+			}
+			defer b.close()
+			var refN [3]uint64
+			refB := [3]int64{1000, 2000, 0}
+			for bi, blockNames := range h {
+				l := letter{Name: strings.Join(blockNames, "+")}
+				for _, nm := range blockNames {
+					l.Txs = append(l.Txs, txT{Name: nm, Raw: pool[nm].raw})
+				}
+				out, err := b.exec(&l)
+				if err != nil {
+					return "harness: " + err.Error()
+				}
+				res := out.results[0]
+				if res.Panic != "" {
+					return fmt.Sprintf("block %d: %s", bi+1, res.Panic)
+				}
+				for ti, nm := range blockNames {
+					t := pool[nm]
+					code := res.TxResults[ti].Code
+					auth := t.nonce == refN[t.signer] && refB[t.signer] >= t.fee
+					if auth {
+						refN[t.signer]++
+						refB[t.signer] -= t.fee
+						refB[1] += 0 // fees go to the fee accumulator, not to an account of the view
+						dst := 0
+						if t.signer == 1 {
+							dst = 2
+						}
+						if refB[t.signer] >= t.amt {
+							refB[t.signer] -= t.amt
+							refB[dst] += t.amt
+							if code != 0 {
+								return fmt.Sprintf("block %d: %s passes authentication and can pay but was rejected with code %d", bi+1, nm, code)
+							}
+						} else if code == 0 {
+							return fmt.Sprintf("block %d: %s succeeded although the signer cannot pay the amount", bi+1, nm)
+						}
+					} else if code == 0 {
+						return fmt.Sprintf("block %d: %s executed although it does not pass authentication (nonce %d vs account nonce %d, balance %d vs fee %d)", bi+1, nm, t.nonce, refN[t.signer], refB[t.signer], t.fee)
+					}
+				}
+				nonce, bal := view(b.ref())
+				for i := 1; i < 3; i++ {
+					if nonce[i] != refN[i] {
+						return fmt.Sprintf("block %d: account a%d has nonce %d, reference %d (a transaction rejected at authentication must not consume the nonce; an authenticated one consumes exactly one)", bi+1, i, nonce[i], refN[i])
+					}
+				}
+				if bal[2] != refB[2] {
+					return fmt.Sprintf("block %d: account a2 has balance %d, reference %d", bi+1, bal[2], refB[2])
+				}
+			}
+			return ""
+		}
+		if poorMode {
+			what := runPoor(pendingPoor)
+			if what != "" {
+				fmt.Printf("VIOLATION property=C09 replay=%s\n  what: %s\n", r.Replay, what)
+				os.Exit(1)
+			}
+			fmt.Println("replay: property held")
+			os.Exit(0)
+		}
+		n2 := len(alpha2)
+		d2 := 3
+		if r.Thorough() {
+			d2 = 4
+		}
+		total2 := 1
+		for i := 0; i < d2; i++ {
+			total2 *= n2
+		}
+		ev.ParallelRange(total2, r.Seed, func(i int) {
+			if r.Expired() {
+				r.Cap("deadline")
+				return
+			}
+			var h [][]string
+			var hs []string
+			x := i
+			for d := 0; d < d2; d++ {
+				h = append(h, alpha2[x%n2])
+				hs = append(hs, strings.Join(alpha2[x%n2], "+"))
+				x /= n2
+			}
+			what := runPoor(h)
+			r.Add("transitions", int64(d2))
+			r.Add("states", 1)
+			r.Add("poor_signer_histories", 1)
+			if what != "" {
+				if strings.HasPrefix(what, "harness:") {
+					r.HarnessError("%s %v", what, hs)
+					return
+				}
+				r.Violate(ev.Violation{Engine: "chainmc", Key: "c09 poor-signer history " + strings.Join(hs, " | "), What: fmt.Sprintf("submission history [%s] with the empty account a2 as a signer: %s", strings.Join(hs, " | "), what), Artefact: c09Artefact{Mode: "poor", History: hs}})
+			}
+		})
+		poorReplay = runPoor
+	}
 	// Part B: forgeries of the next valid transaction after [a0.n0].
 	forgeries := w.c09Forgeries(byName)
 	kinds := map[string]int{}
